@@ -427,11 +427,11 @@ func (w *World) apply(m *myconn, s *Server, c *StmtCtx, id int64) *result {
 		return &result{}
 	case "set_sync_binlog":
 		v, _ := strconv.Atoi(reSetGlobal.FindStringSubmatch(q)[2])
-		s.SyncBinlog, s.SettingsWriter = v, m.caller
+		s.SyncBinlog, s.SettingsWriter, s.SyncBinlogWriter = v, m.caller, m.caller
 		return &result{}
 	case "set_flush":
 		v, _ := strconv.Atoi(reSetGlobal.FindStringSubmatch(q)[2])
-		s.FlushLog, s.SettingsWriter = v, m.caller
+		s.FlushLog, s.SettingsWriter, s.FlushLogWriter = v, m.caller, m.caller
 		return &result{}
 	case "stop_io":
 		s.IORun = false
